@@ -23,6 +23,9 @@ def run_property(pid, tier):
     mod = importlib.import_module(f"allfedsa.{pid.lower()}")
     rep = Report(pid, tier, LEVEL.get(pid, "other"))
     index = Index()
+    from .symx import Interp
+    Interp.resolver = staticmethod(index.make_resolver())
+    Interp.global_literals = index.make_global_literals()
     mod.run(index, rep)
     if hasattr(mod, "describe"):
         mod.describe(rep)
